@@ -180,6 +180,13 @@ class Env:
             return
         ctx = self.ctx
         e = SB._e(cond)
+        if not canary:
+            es = z3.simplify(e)
+            if z3.is_true(es):
+                # syntactically valid (e.g. both sides are the same term): no solver call needed
+                self.stats['trivial'] = self.stats.get('trivial', 0) + 1
+                self.results.append(dict(key=key, verdict='holds', s=0.0, path='', canary=False, trivial=True))
+                return
         pc = ctx.pc if under is None else ctx.pc[:under]
         base = ctx.assumes + ctx.side + ctx.axioms + pc
         sig = hashlib.sha256(('%s|%s|%s' % (key, z3.And(*base).sexpr() if base else '', e.sexpr())).encode()).hexdigest()
